@@ -85,6 +85,22 @@ def full_memory_text(r):
     return "\n".join(head + ["nop"] * pad + ["skip:"] + tail + ["end:"]) + "\n"
 
 
+def long_text(r):
+    """500-2100 instructions with branches and jumps to labels more than 2 KiB / 4 KiB / 8 KiB away, forwards and
+    backwards (the filler in between is jumped over, only a handful of instructions execute).  One line costs about a
+    millisecond to parse, so only API-mode loads and the text pairs use it, rarely."""
+    n = r.choice([520, 1030, 1100, 1300, 2060])
+    filler = r.choice(["nop", "addi x6, x6, 1", "add x7, x7, x6", "lw x7, 0(x0)"])
+    fwd = r.choice(["beq zero, zero, far", "jal x0, far", "bne x5, zero, far", "blt zero, x5, far", "bgeu x5, zero, far", "jal ra, far"])
+    head = ["addi x5, zero, 3", "back:", fwd]
+    tail = ["far:", "addi x6, x6, 1"]
+    if r.random() < 0.5:
+        tail += ["addi x5, x5, -1", r.choice(["bne x5, zero, back", "blt zero, x5, back", "bge x5, x6, back"])]
+    if r.random() < 0.3:
+        tail += ["la x10, far", "jalr x0, x10, 4"] if r.random() < 0.5 else ["addi a7, zero, 10", "ecall"]
+    return "\n".join(head + [filler] * n + tail) + "\n"
+
+
 def gen_riscv(r):
     """A random, usually terminating RISC-V text."""
     k = r.random()
